@@ -47,7 +47,7 @@ def build(i, req, log):
 def tmain(tid, n, out, log):
     for i in range(n):
         try:
-            build(i, {'i': i, 'tid': tid}, log)
+            %(call)s
             out.append(('ok', i))
         except BaseException as e:
             log.append(('raised', e))
@@ -65,7 +65,8 @@ def generate(seed, tier):
         return {"arm": "capture", "value": r.choice(pool), "friendly": pool is not ZOO,
                 "outcome": r.choice(("return", "return", "raise")), "tps": r.choice((["mcap"], ["lcap"], ["mcap", "lcap"])),
                 "drop": r.choice(("del req", "tmp = None", "pass", "del req; tmp = None; pad = None")),
-                "reps": r.choice((1, 2, 3)), "knobs": common.draw_knobs(r, stall_p=0.0)}
+                "reps": r.choice((1, 2, 3)), "knobs": common.draw_knobs(r, stall_p=0.0),
+                "caller": r.choice(("plain", "plain", "classbody"))}
     off = r.choice(ZOO)
     pos = r.choice(POSITIONS)
     ntp = r.choice((1, 1, 2, 3))
@@ -123,6 +124,8 @@ def shrink_candidates(s):
             yield dict(s, tps=s["tps"][1:])
         if s["drop"] != "pass":
             yield dict(s, drop="pass")
+        if s.get("caller") == "classbody":
+            yield dict(s, caller="plain")
         return
     for cand in common.drop_one(s["tps"]):
         if cand:
@@ -144,7 +147,10 @@ def _capture(s, ch):
         from deep.api.tracepoint.trigger import LocationAction, LineLocation, FunctionLocation, Trigger, Location
         p = hostgen.start_program("simcap")
         end = "return res" if s["outcome"] == "return" else "raise HostErr('boom', res)"
-        for ln in (CAP_SRC % {"drop": s["drop"], "value": s["value"], "end": end}).strip("\n").split("\n"):
+        for ln in (CAP_SRC % {"drop": s["drop"], "value": s["value"], "end": end,
+                              # "classbody": the caller's frame is the body of a class whose namespace is not a dict
+                              "call": "via_class_body(build, i, {'i': i, 'tid': tid}, log)" if s.get("caller") == "classbody"
+                              else "build(i, {'i': i, 'tid': tid}, log)"}).strip("\n").split("\n"):
             p.lines.append(ln)
         p.finish()
         end_line = next(i + 1 for i, ln in enumerate(p.source.split("\n")) if "#L:end" in ln)
@@ -245,6 +251,8 @@ def execute(scenario, ch):
     sc["prog"]["opts"] = dict(scenario["prog"]["opts"], pre_lines=pre, extra_lines=extra, post_lines=post)
     sc["tps"] = [dict(t) for t in scenario["tps"]]
     k, cases, ctx = snapcommon.run_cases(sc, ch)
+    if k.capped and not k.hang:
+        return common.result(k, [])     # cut off by the step / time budget: a half-done run, inconclusive
     o = scenario["prog"]["opts"]
     tag = "%s:%s" % (o["pos"], o["off"][:48])
     viol = []
